@@ -441,7 +441,14 @@ func TestGenerated(t *testing.T) {
 		cfg.Off = map[string]bool{"retattr-align": true, "freeze-metadata": true}
 		m, feats := gen.Module(rt, cfg)
 		gen.SparseMetadataIDs(rt, m)
-		x := m.TextNoisy(gen.DrawNoiseWithAliases(rt))
+		noise := gen.DrawNoiseWithAliases(rt)
+		// vector types spelled through named aliases: every type derived from a named type (results of
+		// comparisons, selects, casts on such vectors) must be a type of its own, never a renamed copy
+		if !noise.FnAlias && rapid.IntRange(0, 2).Draw(rt, "vecAlias") == 0 {
+			noise.VecAlias = true
+			hx.Hist("noise/vector_types_through_named_aliases")
+		}
+		x := m.TextNoisy(noise)
 		hx.Eval(1)
 		if pm, err, p := lx.Parse(x); err == nil && p == nil {
 			errs, nb := bindings(m, pm)
